@@ -10,7 +10,7 @@ RULE = ("one request = one history of 2..70 operations (new/newb/clone/store/loa
         "handles, addresses drawn from four windows (two straddling a 1024-byte page boundary, one at the top of the "
         "address space, one at 0), widths 8..256 bits plus invalid ones, both endiannesses, with and without backing "
         "(sections covering / partly covering / missing the window), 15% of the histories run on Memory<Expression> "
-        "and are compared after evaluation; plus all histories of <=2 (quick) / <=3 (thorough) stores of widths 8/16/32 "
+        "(model column = the Expression-instance model, loads evaluated; spec column = byte array of the values); plus all histories of <=2 (quick) / <=3 (thorough) stores of widths 8/16/32 "
         "in an 8-byte window followed by all 8/16/32-bit loads; distinct = distinct request line; non-trivial = the "
         "history contains a load answering a value after at least two successful stores through that handle or its "
         "clone ancestors, or a value-answering load of more than 8 bits that crosses a 1024-byte page boundary")
@@ -22,7 +22,9 @@ TRUSTED = [
 ]
 ASSUMPTIONS = [
     "usize/u64 are 64 bits; falcon built with overflow-checks=on (release profile of the harness)",
-    "theorems are for V = il::Constant; V = il::Expression is covered by the correspondence only (mode E)",
+    "V = il::Expression: load_expr_hom / history_expr reduce the Expression memory to the Constant memory for "
+    "stored expressions that evaluate to a constant of their own width (true of well-sorted ones); mode E "
+    "histories run the Expression-instance model against Memory<Expression>",
     "stored and loaded widths are below 2^63 bits",
 ]
 
@@ -46,17 +48,14 @@ def _first_diff(c):
         return ("broken", 0)
     if len(model) != n or len(spec) != n:
         return ("broken", 0)
-    mode_e = _mode_e(ops)
     broken = None
     for i in range(n):
         s = spec[i]
         if s not in ("-", "?") and impl[i] != s:
             return ("violation", i)
         if impl[i] != model[i] and broken is None:
-            # Memory<Expression> compares expression trees: two memories with the same bytes reached by
-            # different stores may be unequal there while the Constant model calls them equal
-            if mode_e and ops[i].startswith("eq ") and s == "-" and impl[i] == "false":
-                continue
+            # (mode E histories are answered by the Expression-instance model, which compares expression
+            # trees structurally exactly as Memory<Expression> does)
             broken = ("broken", i)
     return broken
 
